@@ -365,9 +365,6 @@ def replay(ctx, wit):
     holder = {}
     make = make_execution(w, fail_at, holder)
     sch = wit['schedule']
-    if sch and sch[0] == 'random':
-        strat = S.RandomStrategy(random.Random(sch[1]), sch[2])
-    else:
-        strat = S.PrefixStrategy(sch)
+    strat = S.strategy_from(sch)
     rec = S.run_once(make, strat, targets(), max_fires=wit.get('max_fires', 2))
     judge(ctx, w, holder['store'], holder['append_order'], holder['blocked'], holder['close_with'][0], wit, fail_at)
